@@ -804,14 +804,24 @@ def setcorr_sessions(mon, ck, boost):
         ck.discard('JWST mock gWCS helper not importable: %r' % ex)
     info = {'v2_ref': 123.0, 'v3_ref': 500.0, 'roll_ref': 115.0}
 
-    def build(kind, use_ref):
+    def build(kind, use_ref, rewrap=False):
+        """rewrap: the corrector is built from a WCS object that was ALREADY corrected once (second round of
+        alignment): the caller's corrected WCS object must not be modified either."""
         if kind == 'fits':
             w = mkwcs(rot=12.0)
+            if rewrap:
+                c0 = FITSWCSCorrector(w)
+                c0.set_correction(matrix=[[1.0, 1e-4], [-1e-4, 1.0]], shift=[0.25, -0.5])
+                w = c0.wcs
             c = FITSWCSCorrector(w, meta={'user': np.arange(3.0)})
             reft = FITSWCSCorrector(mkwcs(rot=77.0), meta={'name': 'reftp'}) if use_ref else None
         else:
             w = make_mock_jwst_wcs(v2ref=123.0, v3ref=500.0, roll=115.0, crpix=[512.0, 512.0],
                                    cd=[[1.0e-5, 0.0], [0.0, 1.0e-5]], crval=[82.0, 12.0])
+            if rewrap:
+                c0 = JWSTWCSCorrector(w, dict(info))
+                c0.set_correction(matrix=[[1.0, 1e-4], [-1e-4, 1.0]], shift=[0.25, -0.5])
+                w = c0.wcs
             c = JWSTWCSCorrector(w, dict(info), meta={'user': np.arange(3.0)})
             reft = None
             if use_ref:
@@ -825,6 +835,7 @@ def setcorr_sessions(mon, ck, boost):
         for dt in DT_QUICK + ['list']:
             for _ in range(nses if kind == 'fits' else max(1, nses // 2)):
                 use_ref = rng.random() < 0.5
+                rewrap = rng.random() < 0.5
                 ncalls = rng.randrange(1, 4)
                 steps = []
                 for k in range(ncalls):
@@ -833,9 +844,9 @@ def setcorr_sessions(mon, ck, boost):
                     s0 = np.array([rng.randrange(-64, 64) / 128.0, rng.randrange(-64, 64) / 128.0])
                     steps.append((m0, s0))
                 finals = []
-                ck.count('set_correction', '%s/%s' % (kind, dt))
+                ck.count('set_correction', '%s/%s%s' % (kind, dt, '/rewrapped' if rewrap else ''))
                 for rep in range(2):
-                    w, c, reft = build(kind, use_ref)
+                    w, c, reft = build(kind, use_ref, rewrap)
                     hist = []
                     for m0, s0 in steps:
                         if dt == 'list':
@@ -850,7 +861,8 @@ def setcorr_sessions(mon, ck, boost):
                                              watch={'original_wcs': c.original_wcs, 'caller wcs object': w},
                                              history=hist, rows=3, result_of=lambda r: {'wcs': c.wcs},
                                              note={'scenario': 'setcorr_sessions.build', 'corrector': kind,
-                                                   'ref_tpwcs': use_ref, 'dtype': dt})
+                                                   'ref_tpwcs': use_ref, 'dtype': dt,
+                                                   'built_from_already_corrected_wcs': rewrap})
                     finals.append(rs)
                 mon.same_result('%s.set_correction' % type(c).__name__, 'fresh equal objects, same %d-call sequence' % ncalls,
                                 finals[0], finals[1], {'steps': [(m.tolist(), s.tolist()) for m, s in steps], 'dtype': dt,
